@@ -3547,7 +3547,7 @@ class SEVM:
                     state.push(codehash)
 
                 elif opcode == OP_BLOCKHASH:
-                    state.push_any(f_blockhash(state.pop()))
+                    state.push_any(f_blockhash(state.popi().as_z3()))
 
                 elif opcode == OP_COINBASE:
                     state.push_any(ex.block.coinbase)
